@@ -17,6 +17,7 @@ type refCfg struct {
 	libIsClient bool
 	suite       uint16
 	auth        bool // client certificate requested (and sent by the client)
+	tls         bool // standard TLS 1.2 path (RSA key exchange) instead of GMSSL
 }
 
 func (r refCfg) String() string {
@@ -24,11 +25,61 @@ func (r refCfg) String() string {
 	if r.libIsClient {
 		role = "library-client"
 	}
+	if r.tls {
+		role = "tls12/" + role
+	}
 	return fmt.Sprintf("%s/%04x/client-auth=%v", role, r.suite, r.auth)
+}
+
+// identity of the reference peer in the role it plays against the library.
+func (r refCfg) identity() gmref.Identity {
+	p := tlsk.Get()
+	switch {
+	case r.tls && r.libIsClient:
+		return gmref.Identity{Certs: [][]byte{p.RSA.Certificate[0]}, RSAKey: p.RSAKey}
+	case r.tls:
+		return gmref.Identity{Certs: [][]byte{p.StdClient.Certificate[0]}, TLSKey: p.StdClient.PrivateKey}
+	case r.libIsClient:
+		return tlsk.ServerIdentity()
+	}
+	return tlsk.ClientIdentity()
+}
+
+func (r refCfg) setup(q *gmref.Peer) {
+	if r.tls {
+		q.UseTLS()
+	}
+	q.Suites = []uint16{r.suite}
+	q.RequestCert = r.auth
+}
+
+// streams are the conformant server-to-client message streams of the profile.
+func (r refCfg) serverStreams() [][]string {
+	if !r.tls {
+		return refdev.ServerStreams()
+	}
+	return [][]string{
+		{"ServerHello", "Certificate", "ServerHelloDone", "ChangeCipherSpec", "Finished"},
+		{"ServerHello", "Certificate", "CertificateRequest", "ServerHelloDone", "ChangeCipherSpec", "Finished"},
+	}
 }
 
 func (r refCfg) libConfig() *gmtls.Config {
 	p := tlsk.Get()
+	if r.tls {
+		if r.libIsClient {
+			c := &gmtls.Config{RootCAs: p.StdRootsG, ServerName: tlsk.ServerName, Time: tlsk.FixedTime, Rand: wire.NewRand(21), CipherSuites: []uint16{r.suite}, MinVersion: 0x0303, MaxVersion: 0x0303}
+			if r.auth {
+				c.Certificates = []gmtls.Certificate{p.StdClient}
+			}
+			return c
+		}
+		s := &gmtls.Config{Certificates: []gmtls.Certificate{p.RSA}, Time: tlsk.FixedTime, Rand: wire.NewRand(22), CipherSuites: []uint16{r.suite}, MinVersion: 0x0303, MaxVersion: 0x0303}
+		if r.auth {
+			s.ClientAuth, s.ClientCAs = gmtls.RequireAndVerifyClientCert, p.StdRootsG
+		}
+		return s
+	}
 	if r.libIsClient {
 		c := &gmtls.Config{GMSupport: &gmtls.GMSupport{}, RootCAs: p.Roots, ServerName: tlsk.ServerName, Time: tlsk.FixedTime, Rand: wire.NewRand(21), CipherSuites: []uint16{r.suite}}
 		if r.auth {
@@ -49,15 +100,7 @@ func (r refCfg) run(edits []refdev.Edit) (*tlsk.RefOutcome, [2][]string, bool) {
 	var sent [2][]string
 	fit := true
 	script := &gmref.Script{SendClientCert: r.auth, Data: tlsk.PingPong(!r.libIsClient), Mutate: refdev.Mutator(edits, &sent, &fit)}
-	id := tlsk.ServerIdentity()
-	if !r.libIsClient {
-		id = tlsk.ClientIdentity()
-	}
-	setup := func(q *gmref.Peer) {
-		q.Suites = []uint16{r.suite}
-		q.RequestCert = r.auth
-	}
-	o := tlsk.RunLibVsRef(r.libConfig(), r.libIsClient, tlsk.LibApp(r.libIsClient), id, 23, setup, script, nil)
+	o := tlsk.RunLibVsRef(r.libConfig(), r.libIsClient, tlsk.LibApp(r.libIsClient), r.identity(), 23, r.setup, script, nil)
 	return o, sent, fit
 }
 
@@ -117,7 +160,7 @@ func refSequenceUnit(r refCfg, flight int) harness.Unit {
 		o, honest, _ := r.run(nil)
 		wants := [][]string{append(append([]string{}, honest[0]...), honest[1]...)}
 		if r.libIsClient {
-			wants = refdev.ServerStreams() // a server may or may not ask for a client certificate
+			wants = r.serverStreams() // a server may or may not ask for a client certificate
 		}
 		c.Add("executions", 1)
 		if !o.Lib.Complete || !o.Ref.Res.Completed || o.Lib.Panic != nil {
@@ -345,16 +388,102 @@ func refTicketHelloUnit(suite uint16) harness.Unit {
 	}}
 }
 
+// refNPNUnit: next-protocol negotiation on the standard TLS server. The scripted client offers NPN,
+// ALPN, both or neither, and sends or omits the NextProtocol message; a NextProtocol message is due
+// exactly when the server put the NPN extension into its ServerHello. Anything else must abort.
+func refNPNUnit(suite uint16) harness.Unit {
+	return harness.Unit{Name: fmt.Sprintf("scripted-peer-next-protocol/%04x", suite), Run: func(c *harness.Ctx) {
+		p := tlsk.Get()
+		npnExt := []byte{0x33, 0x74, 0, 0}
+		alpnExt := []byte{0, 16, 0, 5, 0, 3, 2, 'h', '2'}
+		nextProto := func(proto string) gmref.Item {
+			return gmref.Item{Name: "NextProtocol", Rec: gmref.RecHS, Build: func(q *gmref.Peer) []byte {
+				b := append([]byte{byte(len(proto))}, proto...)
+				pad := 32 - (len(proto)+2)%32
+				b = append(b, byte(pad))
+				b = append(b, make([]byte, pad)...)
+				return gmref.HS(67, b)
+			}}
+		}
+		for _, serverProtos := range [][]string{{"h2", "http/1.1"}, nil} {
+			for hi, hello := range [][]byte{nil, npnExt, alpnExt, append(append([]byte{}, alpnExt...), npnExt...)} {
+				for _, send := range []string{"", "h2", "spdy/evil"} {
+					sc := &gmtls.Config{Certificates: []gmtls.Certificate{p.RSA}, Time: tlsk.FixedTime, Rand: wire.NewRand(95), CipherSuites: []uint16{suite}, MinVersion: 0x0303, MaxVersion: 0x0303, NextProtos: serverProtos}
+					var peer *gmref.Peer
+					setup := func(q *gmref.Peer) {
+						q.UseTLS()
+						q.Suites = []uint16{suite}
+						q.HelloExt = hello
+						peer = q
+					}
+					mut := func(fl int, items []gmref.Item) []gmref.Item {
+						if fl != 1 || send == "" {
+							return items
+						}
+						var out []gmref.Item
+						for _, it := range items {
+							if it.Name == "Finished" {
+								out = append(out, nextProto(send))
+							}
+							out = append(out, it)
+						}
+						return out
+					}
+					o := tlsk.RunLibVsRef(sc, false, tlsk.LibApp(false), gmref.Identity{}, 96, setup, &gmref.Script{Data: tlsk.PingPong(true), Mutate: mut}, nil)
+					negotiated := false
+					if peer != nil && peer.ServerExts != nil {
+						_, negotiated = peer.ServerExts[0x3374]
+					}
+					tag := fmt.Sprintf("TLS 1.2 server NextProtos=%v; ClientHello extension set %d (0 none, 1 NPN, 2 ALPN, 3 ALPN+NPN); NPN in ServerHello=%v; client sends NextProtocol %q", serverProtos, hi, negotiated, send)
+					c.Add("executions", 1)
+					c.Add("transitions", 1)
+					c.DistinctS("states", tag)
+					if c.WantSample() {
+						c.Sample(tag)
+					}
+					verdict := refdev.MustAbort
+					if negotiated == (send != "") {
+						verdict = refdev.MustComplete
+					}
+					r := refCfg{libIsClient: false, suite: suite, tls: true}
+					judgeRef(c, r, tag, fmt.Sprintf("next-protocol:negotiated=%v:sent=%v", negotiated, send != ""), o, verdict)
+					if verdict == refdev.MustComplete && o.Lib.Complete {
+						want := ""
+						switch {
+						case negotiated:
+							want = send
+						case len(serverProtos) > 0 && (hi == 2 || hi == 3):
+							want = "h2" // ALPN
+						}
+						if o.Lib.Proto != want {
+							c.Violate("next-protocol:wrong-protocol-reported", fmt.Sprintf("[%s] the server reports the negotiated protocol %q, want %q", tag, o.Lib.Proto, want), nil, tag)
+						}
+					}
+				}
+			}
+		}
+	}}
+}
+
 func refUnits() []harness.Unit {
 	var u []harness.Unit
-	u = append(u, refTicketHelloUnit(gmtls.GMTLS_ECC_SM4_CBC_SM3), refTicketHelloUnit(gmtls.GMTLS_ECC_SM4_GCM_SM3))
+	u = append(u, refTicketHelloUnit(gmtls.GMTLS_ECC_SM4_CBC_SM3), refTicketHelloUnit(gmtls.GMTLS_ECC_SM4_GCM_SM3), refNPNUnit(gmref.SuiteAESCBC), refNPNUnit(gmref.SuiteAESGCM))
 	for _, lc := range []bool{true, false} {
 		for _, suite := range []uint16{gmtls.GMTLS_ECC_SM4_CBC_SM3, gmtls.GMTLS_ECC_SM4_GCM_SM3} {
 			for _, auth := range []bool{false, true} {
 				for f := 0; f < 2; f++ {
-					u = append(u, refSequenceUnit(refCfg{lc, suite, auth}, f))
+					u = append(u, refSequenceUnit(refCfg{lc, suite, auth, false}, f))
 				}
-				u = append(u, refMalformedUnit(refCfg{lc, suite, auth}), refStraddleUnit(refCfg{lc, suite, auth}))
+				u = append(u, refMalformedUnit(refCfg{lc, suite, auth, false}), refStraddleUnit(refCfg{lc, suite, auth, false}))
+			}
+		}
+	}
+	// the standard TLS 1.2 path (RSA key exchange) with the same scripted peer in its TLS profile
+	for _, lc := range []bool{true, false} {
+		for _, suite := range []uint16{gmref.SuiteAESCBC, gmref.SuiteAESGCM} {
+			for _, auth := range []bool{false, true} {
+				r := refCfg{lc, suite, auth, true}
+				u = append(u, refSequenceUnit(r, 0), refSequenceUnit(r, 1), refMalformedUnit(r), refStraddleUnit(r))
 			}
 		}
 	}
@@ -369,7 +498,7 @@ type lenField struct {
 }
 
 // lengthFields lists the length/count fields of a framed handshake message (offsets into msg).
-func lengthFields(m []byte) []lenField {
+func lengthFields(m []byte, tls bool) []lenField {
 	fs := []lenField{{1, 3, "handshake length"}}
 	b := 4 // body offset
 	body := m[4:]
@@ -406,20 +535,30 @@ func lengthFields(m []byte) []lenField {
 			}
 		}
 	case gmref.HSServerKX, gmref.HSCertVerify:
-		if len(body) >= 2 {
-			fs = append(fs, lenField{b, 2, "signature length"})
-			der(b+2, "ASN.1 SEQUENCE length")
-			der(b+4, "ASN.1 INTEGER r length")
+		o := 0
+		if tls && m[0] == gmref.HSCertVerify {
+			o = 2 // hash and signature algorithm
+		}
+		if len(body) >= o+2 {
+			fs = append(fs, lenField{b + o, 2, "signature length"})
+			der(b+o+2, "ASN.1 SEQUENCE length")
+			der(b+o+4, "ASN.1 INTEGER r length")
 		}
 	case gmref.HSClientKX:
 		if len(body) >= 2 {
 			fs = append(fs, lenField{b, 2, "ciphertext length"})
-			der(b+2, "ASN.1 SEQUENCE length")
+			if !tls {
+				der(b+2, "ASN.1 SEQUENCE length")
+			}
 		}
 	case gmref.HSCertRequest:
 		if len(body) >= 1 {
 			fs = append(fs, lenField{b, 1, "certificate types count"})
 			o := 1 + int(body[0])
+			if tls && len(body) >= o+2 {
+				fs = append(fs, lenField{b + o, 2, "signature algorithms length"})
+				o += 2 + (int(body[o])<<8 | int(body[o+1]))
+			}
 			if len(body) >= o+2 {
 				fs = append(fs, lenField{b + o, 2, "CA list length"})
 				if len(body) >= o+4 {
@@ -497,16 +636,27 @@ func refMalformedUnit(r refCfg) harness.Unit {
 					continue
 				}
 				try := func(what, key string, f func(m []byte) []byte) {
+					applied := false
 					mut := func(fl int, items []gmref.Item) []gmref.Item {
 						if fl != flight {
 							return items
 						}
 						out := append([]gmref.Item{}, items...)
 						orig := out[pos]
-						out[pos].Build = func(p *gmref.Peer) []byte { return f(orig.Build(p)) }
+						out[pos].Build = func(p *gmref.Peer) []byte {
+							m := orig.Build(p)
+							if x := f(m); x != nil {
+								applied = true
+								return x
+							}
+							return m
+						}
 						return out
 					}
 					o := r.runMut(mut)
+					if !applied {
+						return
+					}
 					tag := fmt.Sprintf("%s; %s: %s", r, name, what)
 					c.Add("executions", 1)
 					c.Add("transitions", 1)
@@ -516,11 +666,41 @@ func refMalformedUnit(r refCfg) harness.Unit {
 					}
 					judgeRef(c, r, tag, "malformed:"+name+":"+key, o, refdev.MustAbort)
 				}
-				for _, f := range lengthFields(built) {
-					f := f
-					for _, v := range fieldValues(f, getField(built, f)) {
-						v := v
-						try(fmt.Sprintf("%s set to %d (was %d)", f.what, v, getField(built, f)), f.what, func(m []byte) []byte { return setField(m, f, v) })
+				// fields are located and perturbed on the message as it is built IN THAT RUN (signature
+				// encodings vary in length from run to run)
+				for _, f := range lengthFields(built, r.tls) {
+					what := f.what
+					for _, op := range []string{"+1", "-1", "=0", "=max", "+256", "^0x80"} {
+						op := op
+						try(fmt.Sprintf("%s %s", what, op), what, func(m []byte) []byte {
+							for _, g := range lengthFields(m, r.tls) {
+								if g.what != what {
+									continue
+								}
+								v := getField(m, g)
+								max := 1<<(8*uint(g.size)) - 1
+								nv := v
+								switch op {
+								case "+1":
+									nv = v + 1
+								case "-1":
+									nv = v - 1
+								case "=0":
+									nv = 0
+								case "=max":
+									nv = max
+								case "+256":
+									nv = v + 256
+								case "^0x80":
+									nv = v ^ 0x80
+								}
+								if nv < 0 || nv > max || nv == v {
+									return nil // not applicable to this value
+								}
+								return setField(m, g, nv)
+							}
+							return nil
+						})
 					}
 				}
 				body := len(built) - 4
@@ -530,7 +710,10 @@ func refMalformedUnit(r refCfg) harness.Unit {
 				}
 				for k := 0; k < body; k += step {
 					k := k
-					try(fmt.Sprintf("body truncated to %d of %d bytes (handshake length adjusted)", k, body), "truncated", func(m []byte) []byte {
+					try(fmt.Sprintf("body truncated to %d bytes (handshake length adjusted)", k), "truncated", func(m []byte) []byte {
+						if k >= len(m)-4 {
+							return nil
+						}
 						return gmref.HS(m[0], m[4:4+k])
 					})
 				}
@@ -566,15 +749,7 @@ func refMalformedUnit(r refCfg) harness.Unit {
 // runMut plays one session with a free-form flight mutator.
 func (r refCfg) runMut(mut func(int, []gmref.Item) []gmref.Item) *tlsk.RefOutcome {
 	script := &gmref.Script{SendClientCert: r.auth, Data: tlsk.PingPong(!r.libIsClient), Mutate: mut}
-	id := tlsk.ServerIdentity()
-	if !r.libIsClient {
-		id = tlsk.ClientIdentity()
-	}
-	setup := func(q *gmref.Peer) {
-		q.Suites = []uint16{r.suite}
-		q.RequestCert = r.auth
-	}
-	return tlsk.RunLibVsRef(r.libConfig(), r.libIsClient, tlsk.LibApp(r.libIsClient), id, 23, setup, script, nil)
+	return tlsk.RunLibVsRef(r.libConfig(), r.libIsClient, tlsk.LibApp(r.libIsClient), r.identity(), 23, r.setup, script, nil)
 }
 
 type strayVariant struct {
